@@ -642,6 +642,10 @@ def gen_pair(seed, pair="dc"):
     ic = gen_cache(r, False, p_enable=1.0 if pair == "ic" else 0.25)
     if pair in ("dc", "modes-dc"):
         dc["enable"] = True
+    if pair == "cycles":
+        dc["enable"] = r.random() < 0.7
+        ic["enable"] = r.random() < 0.5 or not dc["enable"]
+        dc["pen"], ic["pen"] = r.choice([1, 2, 3, 5, 7]), r.choice([0, 1, 3, 4])
     if pair == "ic":
         ic["enable"] = True
     settings = {"isa": "riscv", "decoy": False, "hz": True, "dc": dc, "ic": ic,
@@ -683,6 +687,7 @@ _PAIR = {
     "ic": ("C11", "off", "on", "with-instruction-cache"),
     "modes": ("C02", "single", "five", "between-modes"),
     "modes-dc": ("C09", "single", "five", "between-modes"),
+    "cycles": ("C07", "uncached", "cached", "with-caches"),
 }
 
 
@@ -703,6 +708,9 @@ def run_pair(trace, prop):
     if pair == "dc":
         sa["dc"]["enable"] = False
     elif pair == "ic":
+        sa["ic"]["enable"] = False
+    elif pair == "cycles":
+        sa["dc"]["enable"] = False
         sa["ic"]["enable"] = False
     else:  # "modes", "modes-dc"
         sa["mode"], sb["mode"] = "single_stage_pipeline", "five_stage_pipeline"
@@ -732,7 +740,7 @@ def run_pair(trace, prop):
         except Exception as e:  # noqa: BLE001
             out[name] = ["load-error", R.errname(e), getattr(e, "line_number", None)]
     hs.add("load", out[A], out[B])
-    if out[A] != out[B] and pair != "modes-dc":
+    if out[A] != out[B] and pair not in ("modes-dc", "cycles"):
         res.violate(P, "load-differs-" + tag, expected=out[A], got=out[B], settings=shown)
     if out[A][0] != "loaded" or out[B][0] != "loaded" or res.violations:
         res.probes["text does not load (nothing to compare)"] += 1
@@ -772,6 +780,37 @@ def run_pair(trace, prop):
         return res
     if a["done"] is False:
         res.probes["text does not terminate within the step cap (nothing to compare)"] += 1
+        res.digest = hs.hexdigest()
+        return res
+    if pair == "cycles":
+        # C07, penalty clause through the real assembler: the cycle counter of the run with caches is that of the run
+        # without them plus the counted misses times the configured penalties - from the first load on (nothing is
+        # charged while a program is loaded)
+        def cyc(sim):
+            st_ = sim.state
+            d, im_ = st_.memory, st_.instruction_memory
+            return (st_.performance_metrics.cycles, getattr(d, "accesses", 0) - getattr(d, "hits", 0),
+                    getattr(im_, "accesses", 0) - getattr(im_, "hits", 0))
+
+        try:
+            ca, cb = cyc(sims[A]), cyc(sims[B])
+        except Exception as e:  # noqa: BLE001
+            res.violate(P, "counters-unreadable", got=R.errname(e), settings=shown)
+            res.digest = hs.hexdigest()
+            return res
+        hs.add("cycles", ca, cb)
+        if not (a["error"] or b["error"]) and a["done"] is True and b["done"] is True and steps[A] == steps[B]:
+            want = ca[0] + (cb[1] * st["dc"]["pen"] if st["dc"]["enable"] else 0) + (cb[2] * st["ic"]["pen"] if st["ic"]["enable"] else 0)
+            if cb[0] != want:
+                res.violate(P, "cycle-total-with-caches", expected=want, got=cb[0], uncached_cycles=ca[0], data_misses=cb[1],
+                            instruction_misses=cb[2], settings=shown,
+                            note="cycles with caches = cycles without + counted misses x penalties")
+            else:
+                res.probes["assembled text: cycle total with caches = total without + misses x penalties"] += 1
+                if cb[1] and st["dc"]["enable"]:
+                    res.probes["assembled text with data-cache misses: penalties add up"] += 1
+        else:
+            res.probes["assembled text: run with an error / not done / different step counts (cycle identity not evaluated)"] += 1
         res.digest = hs.hexdigest()
         return res
     if pair == "modes-dc":
